@@ -354,7 +354,7 @@ META = dict(
 )
 
 MANIFEST = dict(
-    text="For C02: the real set_termini/assign_termini/apply_patch on structures whose composition is symbolic (residue kinds incl. waters and hetero groups, hidden chain ends marked by OXT, two chains, blank chain id), whose closure distance is an arbitrary real and with symbolic --neutraln/--neutralc: N-/C-terminal flags, patches and topology atoms (H2, OXT) sit on exactly the chain ends, once, of the requested kind, none for cyclic chains - the N-terminus on the first amino acid also when non-polymer residues precede it, and of the charged kind unless requested otherwise also when the input already carries hydrogens with or without element columns; the integrality guard noninteger_charge and the four-decimal rounding of Residue.charge for all real charges; formal charge of every listed (force field, state, position) as a table lemma on the real pipeline. Round 4: a residue the input already names by a protonation variant (HSP, HIP, HID, HIE, HSD, HSE, ASH, GLH, LYN, CYM, TYM, AR0) carries that variant formal charge at every chain position (table).",
+    text="For C02: the real set_termini/assign_termini/apply_patch on structures whose composition is symbolic (residue kinds incl. waters and hetero groups, hidden chain ends marked by OXT, two chains, blank chain id), whose closure distance is an arbitrary real and with symbolic --neutraln/--neutralc: N-/C-terminal flags, patches and topology atoms (H2, OXT) sit on exactly the chain ends, once, of the requested kind, none for cyclic chains - the N-terminus on the first amino acid also when non-polymer residues precede it, and of the charged kind unless requested otherwise also when the input already carries hydrogens with or without element columns; the integrality guard noninteger_charge and the four-decimal rounding of Residue.charge for all real charges; formal charge of every listed (force field, state, position) as a table lemma on the real pipeline. Round 4: a residue the input already names by a protonation variant (HSP, HIP, HID, HIE, HSD, HSE, ASH, GLH, LYN, CYM, TYM, AR0) carries that variant formal charge at every chain position (table). Round 5: after a chain is split at a hidden chain end the chain view lists every residue exactly once.",
     note="Trusted: z3, symx. Chains have at most five residues; nucleic acids are outside the symbolic part. The table lemma is exhaustive over its rows on template tripeptides, not symbolic.",
     technique="symbolic execution of real code over symbolic chain compositions (symx) + SMT verdict per path; table lemma",
     design="DESIGN.md section 3 C02",
